@@ -46,7 +46,7 @@ func returnedError(r *ssa.Return) ssa.Value {
 	if len(r.Results) == 0 {
 		return nil
 	}
-	v := r.Results[len(r.Results)-1]
+	v := kit.Res(r, len(r.Results)-1)
 	if !kit.IsErrorType(v.Type()) {
 		return nil
 	}
